@@ -48,6 +48,7 @@ class HistoryGen:
         self.two_x_bias = two_x_bias
         self.known: dict[int, set[int]] = {}
         self.uid = 0
+        self.wide = False  # draw node / child ids from the full 0..255 / 0..254 range, types from the full tables
 
     def payload(self) -> str:
         rng = self.rng
@@ -65,6 +66,10 @@ class HistoryGen:
 
     def node(self, *, known: bool | None = None) -> int:
         rng = self.rng
+        if self.wide and rng.random() < 0.5:
+            if known is True and self.known:
+                return rng.choice(sorted(self.known))
+            return rng.randint(0, 255)
         if known is True and self.known:
             return rng.choice(sorted(self.known))
         if known is False:
@@ -78,6 +83,8 @@ class HistoryGen:
         have = self.known.get(node, set())
         if known is True and have:
             return rng.choice(sorted(have))
+        if self.wide and rng.random() < 0.5:
+            return rng.randint(0, 254)
         return rng.choice(CHILD_POOL)
 
     def rx_line(self) -> str:
@@ -95,15 +102,18 @@ class HistoryGen:
             c = rng.choice(CHILD_POOL)
             if n in self.known:
                 self.known[n].add(c)
-            return f"{n};{c};0;0;{rng.choice([0, 6, 38, -5, 10**30])};{self.payload()}"
+            ctype = rng.randint(0, 39) if self.wide else rng.choice([0, 6, 38, -5, 10**30])
+            return f"{n};{c};0;0;{ctype};{self.payload()}"
         if roll < 0.46:
             n = self.node(known=rng.random() < 0.9)
             c = self.child(n, known=rng.random() < 0.85)
-            return f"{n};{c};1;{rng.randint(0, 1)};{rng.choice(VTYPES)};{self.payload()}"
+            vtype = rng.randint(0, 56) if self.wide else rng.choice(VTYPES)
+            return f"{n};{c};1;{rng.randint(0, 1)};{vtype};{self.payload()}"
         if roll < 0.56:
             n = self.node(known=rng.random() < 0.9)
             c = self.child(n, known=rng.random() < 0.85)
-            return f"{n};{c};2;0;{rng.choice(VTYPES)};{self.payload()}"
+            vtype = rng.randint(0, 56) if self.wide else rng.choice(VTYPES)
+            return f"{n};{c};2;0;{vtype};{self.payload()}"
         if roll < 0.92:
             imax = spec.INTERNAL_MAX[self.proto]
             t = rng.choice([0, 0, 1, 3, 6, 9, 11, 12, 14, 21, 22, 22, 32, 32, 19, 20, rng.randint(0, imax),
